@@ -582,6 +582,13 @@ func (e *sysEnv) runUDP(c *client, listen time.Duration) {
 // runTCP sends the queries of cs (pipelined on one connection) and listens.
 // closeAfter > 0: the client disconnects after that long.
 func (e *sysEnv) runTCP(cs []*client, listen, closeAfter time.Duration) {
+	e.runTCPx(cs, listen, closeAfter, false)
+}
+
+// runTCPx: halfTail appends a frame the client never finishes (length prefix +
+// half a body) to the pipelined burst and then half-closes its write side; the
+// complete queries before it were admitted and must still be answered.
+func (e *sysEnv) runTCPx(cs []*client, listen, closeAfter time.Duration, halfTail bool) {
 	conn, err := net.Dial("tcp", e.addr)
 	if err != nil {
 		for _, c := range cs {
@@ -598,6 +605,11 @@ func (e *sysEnv) runTCP(cs []*client, listen, closeAfter time.Duration) {
 		out = append(out, l[:]...)
 		out = append(out, b...)
 	}
+	if halfTail {
+		b, _ := e.newQuery(&client{name: "tail.ok.test.", qtype: dns.TypeA, id: 7}).Pack()
+		out = append(out, byte(len(b)>>8), byte(len(b)))
+		out = append(out, b[:len(b)/2]...)
+	}
 	now := time.Now()
 	for _, c := range cs {
 		c.sent = now
@@ -607,6 +619,11 @@ func (e *sysEnv) runTCP(cs []*client, listen, closeAfter time.Duration) {
 			c.errs = "write:" + err.Error()
 		}
 		return
+	}
+	if halfTail {
+		if tc, ok := conn.(*net.TCPConn); ok && len(cs)%2 == 0 {
+			_ = tc.CloseWrite() // even cohorts half-close, odd ones just stall inside the frame
+		}
 	}
 	if closeAfter > 0 {
 		time.Sleep(closeAfter)
@@ -809,6 +826,10 @@ func (e *sysEnv) build(g *group) {
 			c := e.mk("pipe", g.zone, lbl(i), dns.TypeA)
 			add(c, true)
 		}
+	case "pipehalf": // pipelined complete queries, then a frame the client never finishes (+ half-close)
+		for i := 0; i < g.n; i++ {
+			add(e.mk("pipeh", g.zone, lbl(i), dns.TypeA), true)
+		}
 	case "earlyclose": // clients that hang up; the rest of the same-name cohort stays
 		for i := 0; i < g.n; i++ {
 			c := e.mk("tcpclose", g.zone, same, dns.TypeA)
@@ -892,7 +913,7 @@ func (e *sysEnv) launch(gs []*group) {
 	listen := e.qto + sysListenMargin
 	var wg sync.WaitGroup
 	for _, g := range gs {
-		var pipe []*client
+		var pipe, pipeh []*client
 		for _, c := range g.clients {
 			c := c
 			switch c.kind {
@@ -913,12 +934,19 @@ func (e *sysEnv) launch(gs []*group) {
 				go func() { defer wg.Done(); e.runHalf(c, 600*time.Millisecond) }()
 			case "pipe":
 				pipe = append(pipe, c)
+			case "pipeh":
+				pipeh = append(pipeh, c)
 			}
 		}
 		if len(pipe) > 0 {
 			p := pipe
 			wg.Add(1)
 			go func() { defer wg.Done(); e.runTCP(p, listen, 0) }()
+		}
+		if len(pipeh) > 0 {
+			p := pipeh
+			wg.Add(1)
+			go func() { defer wg.Done(); e.runTCPx(p, listen, 0, true) }()
 		}
 	}
 	wg.Wait()
